@@ -119,7 +119,14 @@ def replay_generic(ctx, rp, builders):
     from engine.driver import ASAN_ENV
     env.update(ASAN_ENV)
     print("replay:", " ".join(cmd))
-    r = subprocess.run(cmd, env=env)
+    try:
+        r = subprocess.run(cmd, env=env, timeout=900)
+    except subprocess.TimeoutExpired:
+        print("replay: the history did not terminate")
+        print("VIOLATION property=%s replay=%s" % (ctx.id, "(replayed)"))
+        return 1
+    if r.returncode == 97:
+        print("replay: the operation did not terminate within the watchdog limit (hang reproduced)")
     if r.returncode == 0:
         print("replay: property held on this history")
         return 0
